@@ -51,6 +51,11 @@ func IncompleteGamma(x, alpha, ln_gamma_alpha float64) float64 {
 	factor = math.Exp(p*math.Log(x) - x - g)
 
 	if x > 1 && x >= p {
+		// Far in the right tail the factor underflows: the ratio is 1, whatever
+		// the continued fraction (whose terms overflow for a huge x: it never converged)
+		if factor == 0 {
+			return 1.0
+		}
 		goto l30
 	}
 	/* (1) series expansion */
